@@ -134,6 +134,20 @@ func (s *ServerDataConf) check() error {
 		}
 	}
 
+	// check product consistency in host and vip
+	for _, product1 := range s.HostTable.vipTable {
+		find := false
+		for _, product2 := range s.HostTable.hostTagTable {
+			if product1 == product2 {
+				find = true
+				break
+			}
+		}
+		if !find {
+			return fmt.Errorf("product[%s] in vip should exist in host!", product1)
+		}
+	}
+
 	// check cluster_name of advanced rule in route and cluster_conf
 	for _, routeRules := range s.HostTable.productAdvancedRouteTable {
 		for _, routeRule := range routeRules {
